@@ -37,7 +37,7 @@ def budget(tier):
 # ---------------------------------------------------------------------- programs
 
 BOUNDS = {}   # argument name -> exclusive upper bound for integer arguments that index or count
-QFAMS = ['Q1', 'Q2', 'Q3', 'Q4', 'Q5', 'Q6', 'Q7', 'Q8', 'Q8', 'Q9']
+QFAMS = ['Q1', 'Q2', 'Q3', 'Q4', 'Q5', 'Q6', 'Q7', 'Q8', 'Q8', 'Q9', 'Q10']
 
 
 def build_q(prog):
@@ -106,6 +106,16 @@ def build_q(prog):
         AA = ev.Sin(A) * A      # computed, argument free, not folded by the simplifier
         vv = ev.Cos(v) + v
         return (ev.InsertAxis(vv, cnt), ev.get(AA, 0, idx), ev.InsertAxis(ev.Sum(vv), cnt), ev.Sum(AA) + ev.astype(cnt, float), AA), args
+    if fam == 'Q10':  # terms that are VIEWS of an argument (real / imaginary part, transpose, ravel) next to terms that are accumulated in place
+        L = n + 2
+        Z = arg('z', (L,), 'complex')
+        W = arg('w', (m, L), 'complex')
+        X = arg('x', (n,))
+        Y = arg('y', (L, m))
+        D = c(numpy.array([rng.randrange(L) for _ in range(n)], dtype=int))
+        scat = ev._inflate(X, D, c(L), 0)
+        return (scat + ev.Real(Z), ev.Imag(Z) + scat, ev.diagonalize(ev.Real(Z)) + ev.Real(ev.InsertAxis(Z, c(L))),
+                ev._inflate(X, D, c(L), 0) * 2. + ev.Imag(Z) * ev.Real(Z), ev.Transpose(Y, (1, 0)) + ev.Real(W), scat + ev.Sum(Y)), args
     if fam == 'Q9':  # values that live in library objects (transform items of a plain sequence): chains of one and of several items, handed out directly and through views
         from nutils import transformseq, transform
         nd = 1 + m % 2
@@ -191,7 +201,7 @@ def gen_case(rng, index, tier):
     for _ in range(nops):
         r = rng.random()
         if r < 0.5:
-            ops.append(dict(op='call', k=rng.randrange(nsets), how=rng.choice(['same', 'same', 'same', 'fresh', 'readonly', 'noncontig', 'extra', 'asint', 'onearray'])))
+            ops.append(dict(op='call', k=rng.randrange(nsets), how=rng.choice(['same', 'same', 'same', 'fresh', 'readonly', 'noncontig', 'extra', 'asint', 'onearray', 'roview', 'roview_int', 'roview_int'])))
         elif r < 0.7:
             ops.append(dict(op='scribble', j=rng.randrange(6)))
         elif r < 0.8:
@@ -288,11 +298,19 @@ def _same(res, snap, exact=True, tol=0.):
     return None
 
 
-def make_args(base, k, version, rng_seed):
+def _integral(k, nsets):
+    return nsets >= 2 and k == nsets - 1
+
+
+def make_args(base, k, version, rng_seed, integral=False):
     '''Argument set k in content version `version`: deterministic values derived from the base arrays.'''
     out = {}
     for name, a in base.items():
         r = numpy.random.RandomState((rng_seed + 1000 * k + 17 * version) % (1 << 31))
+        if integral and a.dtype.kind == 'f':
+            # whole numbers: this set can be passed as integer arrays for the real-valued arguments
+            out[name] = numpy.array(numpy.round(a * 2) + r.randint(-3, 4, size=a.shape), dtype=float)
+            continue
         if a.dtype.kind == 'i':
             v = a + (r.randint(-3, 4, size=a.shape) if (k or version) else 0)
             if name == 'sel':
@@ -352,7 +370,7 @@ def run_compiled(case, skip_first_run_views=False):
         return dict(verdict='discard', vclass='compile-raises', detail=f'{type(e).__name__}: {e}'[:200])
     for k in range(nsets):
         for version in (0, 1):
-            a = make_args(base, k, version, case['aseed'])
+            a = make_args(base, k, version, case['aseed'], integral=_integral(k, nsets))
             try:
                 r1 = _snapshot(ref({n: v.copy() for n, v in a.items()}))
                 r2 = ref2({n: v.copy() for n, v in a.items()})
@@ -366,7 +384,8 @@ def run_compiled(case, skip_first_run_views=False):
     # ---- the long-lived function under test
     with procsim.patched_parallel(), parallel.maxprocs(cfg['compile_procs']):
         f = evaluable.compile(funcs, cache_const_intermediates=cfg['cache'], stats='log' if cfg['stats'] else False, **kw)
-    pool = {k: make_args(base, k, 0, case['aseed']) for k in range(nsets)}
+    pool = {k: make_args(base, k, 0, case['aseed'], integral=_integral(k, nsets)) for k in range(nsets)}
+    roviews = {}   # (k, name, kind) -> (base array, read-only view of it): persistent objects, the SAME view is passed again and again
     pooldicts = {k: dict(pool[k]) for k in range(nsets)}
     version = {k: 0 for k in range(nsets)}
     returned = []   # flat arrays of every call, in order
@@ -418,6 +437,21 @@ def run_compiled(case, skip_first_run_views=False):
             elif how == 'asint':
                 # float arguments whose values are integers may be passed as integer arrays (cast on ingestion)
                 passed = {n: (v.astype(int) if v.dtype.kind == 'f' and (v == numpy.round(v)).all() else v) for n, v in a.items()}
+            elif how in ('roview', 'roview_int'):
+                # read-only VIEWS of writable bases, the same view objects on every such call; the bases are updated in place by `mutate`
+                passed = {}
+                for n, v in a.items():
+                    asint = how == 'roview_int' and v.dtype.kind == 'f' and (v == numpy.round(v)).all()
+                    key = (k, n, 'int' if asint else 'same')
+                    if key not in roviews:
+                        b_ = v.astype(int) if asint else v.copy()
+                        w = b_.view()
+                        w.setflags(write=False)
+                        roviews[key] = (b_, w)
+                    b_, w = roviews[key]
+                    if not numpy.array_equal(b_, v):
+                        b_[...] = v if not asint else numpy.round(v).astype(int)
+                    passed[n] = w
             elif how == 'onearray':
                 # one ndarray object passed for two arguments of equal shape and dtype
                 passed = dict(a)
@@ -462,7 +496,10 @@ def run_compiled(case, skip_first_run_views=False):
         elif kind == 'mutate':
             k = op['k']
             version[k] ^= 1
-            new = make_args(base, k, version[k], case['aseed'])
+            new = make_args(base, k, version[k], case['aseed'], integral=_integral(k, nsets))
+            for (kk, name, kind_), (b_, v_) in roviews.items():
+                if kk == k:
+                    b_[...] = new[name] if kind_ == 'same' else numpy.round(new[name]).astype(b_.dtype)   # the base behind the read-only view changes in place
             for n, v in pooldicts[k].items():
                 if v.flags.writeable:
                     v[...] = new[n]     # in place, same array objects (as Topology._locate does)
